@@ -7,7 +7,9 @@ import Lungo.Props.C04
 #print axioms Lungo.Conc.C04.base_is_current
 #print axioms Lungo.Conc.C04.serializable
 #print axioms Lungo.Conc.C04.no_lost_update
-#print axioms Lungo.Conc.C04.write_history_partial
+#print axioms Lungo.Conc.C04.write_history_local
+#print axioms Lungo.Conc.C04.write_history
+#print axioms Lungo.Conc.C04.write_history_fails_shared
 #print axioms Lungo.Conc.C04.real_time
 #print axioms Lungo.Conc.C04.returned_in_log
 #print axioms Lungo.Conc.C04.read_prefix
